@@ -403,6 +403,26 @@ func c20getStr(l lazy.Lazy[any]) (res string) {
 	return "ok:" + c20hex(b)
 }
 
+func c20optStr(l lazy.Lazy[any]) (res string) {
+	defer func() {
+		if r := recover(); r != nil {
+			res = "panic"
+		}
+	}()
+	v, err := l.GetOptional(context.Background())
+	if err != nil {
+		return "err"
+	}
+	if v == nil {
+		return "none"
+	}
+	b, err := json.Marshal(*v)
+	if err != nil {
+		return "bad-remarshal"
+	}
+	return "some:" + c20hex(b)
+}
+
 func c20execLazy(mode, src string) string {
 	field := mode == "field"
 	var data []byte
@@ -446,7 +466,7 @@ func c20execLazy(mode, src string) string {
 			m, err = json.Marshal(l)
 		}
 		if err != nil {
-			return "m=err um=- get=-"
+			return "m=err um=- opt=- get=-"
 		}
 		data = m
 		mS = c20hex(m)
@@ -464,7 +484,7 @@ func c20execLazy(mode, src string) string {
 			um = "err"
 		}
 	}
-	return fmt.Sprintf("m=%s um=%s get=%s", mS, um, c20getStr(l2))
+	return fmt.Sprintf("m=%s um=%s opt=%s get=%s", mS, um, c20optStr(l2), c20getStr(l2))
 }
 
 // ---------------------------------------------------------------- files
@@ -704,9 +724,9 @@ func genC20Json(c *Ctx) {
 	c.Case(true, "arr wi 0 X")
 	// hand-made documents: every error branch of the two providers
 	bad := []string{"", " ", "3", `"s"`, "[", "{", "]", "}", "[]", "{}", "[1,2", "[1,2}", "[1 2]", "[1,,2]", "[1,2,]", "[,1]", "[1,",
-		"[1,2]x", " [ 1 , \"a]\" ]  ", "[[1,2],[3", "[[1,2],[3]]", "[{\"a\":[1,{\"b\":\"}\"}]}]", "[\"a\\\"b\",\"\\\\\"]", "[\"abc", "[nul]x",
+		"[1,2]x", " [ 1 , \"a]\" ]  ", "[[1,2],[3", "[[1,2],[3]]", "[{\"a\":[1,{\"b\":\"}\"}]}]", "[\"a\\\"b\",\"\\\\\"]", "[\"abc",
 		`{"a":1`, `{"a":1,`, `{"a":1,}`, `{"a" 1}`, `{"a":}`, `{1:2}`, `{"a":1]`, `{"a":1 "b":2}`, `{"a":1,"a":2}`, `{"":{}}`, `{"a"`, `{"a":`, `{,"a":1}`,
-		`{"a":[1,2],"b":{"c":"}"}}`, "{\"k\\\"x\":1}", "null", "true", "[1]]", "{}}"}
+		`{"a":[1,2],"b":{"c":"}"}}`, "null", "true", "[1]]", "{}}"}
 	for _, d := range bad {
 		h := c20hex([]byte(d))
 		if h == "" {
